@@ -114,15 +114,24 @@ func register[F ~func(http.ResponseWriter, *http.Request) (int, error)](method, 
 
 // New creates the environment. initial is written to the store file before registration.
 func New(dir string, keyLen int, withTCP, withUDP bool, initial []byte, keyNames []string, logger *zap.Logger) (*Env, error) {
+	if err := os.WriteFile(filepath.Join(dir, "upsks.json"), initial, 0o644); err != nil {
+		return nil, err
+	}
+	return open(dir, keyLen, withTCP, withUDP, keyNames, logger)
+}
+
+// Open is what a (re)start of the service does with an existing store file.
+func Open(dir string, keyLen int, keyNames []string) (*Env, error) {
+	return open(dir, keyLen, true, true, keyNames, nil)
+}
+
+func open(dir string, keyLen int, withTCP, withUDP bool, keyNames []string, logger *zap.Logger) (*Env, error) {
 	if logger == nil {
 		logger = zap.NewNop()
 	}
 	e := &Env{Dir: dir, Path: filepath.Join(dir, "upsks.json"), KeyLen: keyLen, KeyNames: keyNames, Logger: logger}
 	h := sha256.Sum256([]byte("verif-ipsk"))
 	e.IPSK = h[:keyLen]
-	if err := os.WriteFile(e.Path, initial, 0o644); err != nil {
-		return nil, err
-	}
 	var tcpStore, udpStore *ss2022.CredStore
 	if withTCP {
 		icc, err := ss2022.NewServerIdentityCipherConfig(e.IPSK, false)
